@@ -438,12 +438,22 @@ impl DOP853 {
             fac = facc2.max(facc1.min(fac / safety_factor));
             hnew = h / fac;
 
-            if err <= 1.0 {
+            // The derivative at the new point feeds the dense output and the next step;
+            // a step whose end point has a non-finite derivative cannot be accepted.
+            let mut accept = err <= 1.0;
+            if accept {
+                f.ode(xph, &k5, &mut k4);
+                evals.ode += 1;
+                if k4.iter().any(|v| !v.is_finite()) {
+                    accept = false;
+                    fac11 = Float::INFINITY;
+                }
+            }
+
+            if accept {
                 // Step accepted
                 facold = err.max(1.0e-4);
                 steps.accepted += 1;
-                f.ode(xph, &k5, &mut k4);
-                evals.ode += 1;
 
                 // Stiffness detection
                 if (steps.accepted % nstiff == 0) || (iasti > 0) {
@@ -592,6 +602,17 @@ impl DOP853 {
                                 + D714 * k10[i]
                                 + D715 * k2[i]
                                 + D716 * k3[i]);
+                    }
+
+                    // A non-finite derivative in the dense-output stages would make the
+                    // interpolant non-finite: redo the step with a smaller size instead.
+                    if cont[4 * n..].iter().any(|v| !v.is_finite()) {
+                        steps.accepted -= 1;
+                        steps.rejected += 1;
+                        reject = true;
+                        last = false;
+                        h /= facc1;
+                        continue;
                     }
                 }
 
